@@ -77,6 +77,10 @@ type Req struct {
 	// ReuseReq), ReuseDelayNs how long after closing the body it does so.
 	ReuseSet     [][2]string `json:"reuse_set,omitempty"`
 	ReuseDelayNs int64       `json:"reuse_delay_ns,omitempty"`
+	// SameObj > 0: the caller sends the very http.Request object it used in step SameObj-1
+	// again (a retry loop does that); Method, URL and Header of this Req are then those of
+	// that step.
+	SameObj int `json:"same_obj,omitempty"`
 	// EmptyMethod: the request is sent with Method "" (which net/http defines as GET).
 	EmptyMethod bool `json:"empty_method,omitempty"`
 	Uncond     Reply  `json:"uncond"`
